@@ -171,8 +171,16 @@ class Stmts:
                     self.frame_violation(st, f'item assignment {self.src(tgt)}', node)
                 newc = VMapB(z3.Store(th.m_hasA(cont.term), kt, True), z3.Store(th.m_getA(cont.term), kt, vt))
             else:
-                if isinstance(cont, VVal) and not cont.fresh:
-                    self.frame_violation(st, f'item assignment {self.src(tgt)}', node)
+                if isinstance(cont, VVal) and not cont.fresh and not self.is_mutable_root(cont, st):
+                    is_glob = str(cont.term).startswith('c!glob_')
+                    self.frame_violation(st, f'item assignment {self.src(tgt)}' + (' (module-level state: later calls depend on earlier ones)' if is_glob else ''),
+                                         node, extra_props=(['C10'] if is_glob else []))
+                    return          # the violation is recorded; the rest of the function is still examined
+                if cont is None and isinstance(tgt.value, ast.Attribute) and isinstance(tgt.value.value, ast.Name) \
+                        and tgt.value.value.id in ('self', 'cls') and 'self' not in (self.cur_contract.mutable or []):
+                    # state kept on the receiver of a method that is not declared to modify it
+                    self.frame_violation(st, f'item assignment {self.src(tgt)} (state stored on the receiver)', node)
+                    return
                 raise OutOfSubset('subscript assignment on ' + type(cont).__name__, node)
             if not self.known_hashable(idx) and not self.spec_mode and isinstance(newc, VMapB):
                 self.emit(Obligation(self.cur_func_key, 'exc', f'{self.next_label()}:setitem', self.exc_props, list(st.pc),
